@@ -297,13 +297,33 @@ def explicitlyForDeletion (h : Handler) : Bool :=
 def matchesSubresource (h : Handler) (c : Cause) : Bool :=
   h.subresource == some "*" || h.subresource == c.subresource
 
+/-- truthiness of `handler.operations` (None and the empty collection are falsy) -/
+def opsTruthy (h : Handler) : Bool :=
+  match h.operations with
+  | some (_ :: _) => true
+  | _ => false
+
+/-- `x in handler.operations` (only evaluated when the collection is truthy) -/
+def opsContains (h : Handler) (x : String) : Bool := (h.operations.getD []).contains x
+
+/-- `cause.operation in handler.operations` (only evaluated when `cause.operation` is not None) -/
+def opInOps (h : Handler) (c : Cause) : Bool :=
+  match c.operation with
+  | some op => opsContains h op
+  | none => false
+
+/-- `matching_operation` (repair cc4195a):
+    `not handler.operations or cause.operation is None or '*' in handler.operations or
+     cause.operation in handler.operations` -/
+def matchingOperation (h : Handler) (c : Cause) : Bool :=
+  !opsTruthy h || c.operation == none || opsContains h "*" || opInOps h c
+
 /-- The gate; `m` = the remaining filters of `match()` (resource selector, labels, annotations,
-    field values/changes, `when` callback: C15's subject), opaque here.
-    NB: `handler.operations` is read ONLY for the deletion opt-in; it is not compared
-    with `cause.operation` anywhere (the code relies on the apiserver's webhook rules). -/
+    field values/changes, `when` callback: C15's subject), opaque here. -/
 def gate (h : Handler) (c : Cause) (m : Bool) : Bool :=
   (c.reason == none || c.reason == some h.reason) &&
   (c.webhook == none || c.webhook == some h.id) &&
+  matchingOperation h c &&
   (h.reason != .mutating || c.operation != some "DELETE" || explicitlyForDeletion h) &&
   (matchesSubresource h c && m)
 
